@@ -73,6 +73,7 @@ def corpus(out, tier, seed, wd, trace=False, extra=None, light=False):
             add("MC_Programs_calls6", [progs.INPUTS[1]])
             add("MC_Programs_conds5", [None])
             add("MC_Programs_chains7", [progs.INPUTS[1]])
+            add("MC_Programs_seqs4", [progs.INPUTS[1]])
             add("MC_Programs_sim", [progs.INPUTS[3]], simulate=150, depth=14, seed=seed, min_nodes=5, cap=500)
         elif tier == "quick":
             add("MC_Programs_q3", progs.INPUTS)
